@@ -55,7 +55,7 @@ Lemma step_good : forall pol fr den o w st,
   snd q = fresh_step fr o w.
 Proof.
   intros pol fr den o w st C Ok Hpol.
-  destruct o as [r|tops reach ls|tops reach ls|ks|ks| | | |]; simpl in *.
+  destruct o as [r|tops reach ls|tops reach ls|ks|ks| | | | | |]; simpl in *.
   - (* eval *)
     pose proof (eval_reqE_good fr den w r st C Ok) as G.
     destruct (eval_reqE fr w r st) as [st' res]. simpl in *. destruct G as [C' [F Hr]].
@@ -88,6 +88,12 @@ Proof.
     split; [auto|]. split; [auto|]. split; [rewrite Hh; apply frame_refl|auto].
   - specialize (Hpol _ eq_refl).
     destruct (clear_all_coherent pol P_ALIGNED [] [] true (den (mkworld (w_p w) (w_d w) (S (w_l w)))) st Hpol) as [Cc Hh].
+    split; [auto|]. split; [auto|]. split; [rewrite Hh; apply frame_refl|auto].
+  - specialize (Hpol _ eq_refl).
+    destruct (clear_all_coherent pol P_REMOVE_COMPONENT [] [] true (den (mkworld (w_p w) (S (w_d w)) (w_l w))) st Hpol) as [Cc Hh].
+    split; [auto|]. split; [auto|]. split; [rewrite Hh; apply frame_refl|auto].
+  - specialize (Hpol _ eq_refl).
+    destruct (clear_all_coherent pol P_REPLACE_COMPONENT [] [] true (den (mkworld (w_p w) (S (w_d w)) (w_l w))) st Hpol) as [Cc Hh].
     split; [auto|]. split; [auto|]. split; [rewrite Hh; apply frame_refl|auto].
   - split; [auto|]. split; [auto|]. split; [apply frame_refl|auto].
 Qed.
@@ -155,11 +161,17 @@ Qed.
 
 (* ---------- the policy regenerated from the current source ---------- *)
 Theorem table_policy_covers :
-  forall p, In p [P_UPDATE_COMPONENTS; P_UPDATE_VALUES; P_MOVE_TO; P_LINKS; P_ALIGNED] -> table_policy p = Some (2, true).
+  forall p, In p [P_UPDATE_COMPONENTS; P_UPDATE_VALUES; P_MOVE_TO; P_LINKS; P_ALIGNED; P_REMOVE_COMPONENT] ->
+            table_policy p = Some (2, true) /\ uncond_of p = true.
 Proof.
   intros p H. simpl in H.
-  repeat (destruct H as [H|H]; [subst p; vm_compute; reflexivity|]). contradiction.
+  repeat (destruct H as [H|H]; [subst p; vm_compute; split; reflexivity|]). contradiction.
 Qed.
+
+(* add_component replacing an existing attribute: every cached mask is dropped before the broadcast, under the guard
+   `is_present` -- which is the definition of this operation; the guard itself is not discharged by the scan *)
+Theorem table_policy_replace_component : table_policy P_REPLACE_COMPONENT = Some (2, true).
+Proof. vm_compute. reflexivity. Qed.
 
 (* PARTIAL (exact guard: the history assigns to no attribute of a state and edits no region in place):
    with the policy of the current source every result is the fresh one. *)
@@ -174,7 +186,7 @@ Proof.
   assert (Hpol : policy_covers table_policy ops).
   { intros o p Hin Hp. specialize (Hno o Hin).
     destruct o; simpl in Hp; inversion Hp; subst p; try discriminate;
-      apply table_policy_covers; simpl; auto 10. }
+      first [solve [refine (proj1 (table_policy_covers _ _)); simpl; auto 10] | apply table_policy_replace_component]. }
   pose proof (coherent_reachable table_policy fr den ops world0 empty_state (coherentE_empty_memo _ _) Ok Hpol) as G.
   simpl in G. destruct G as [G1 [G2 _]]. intro q. subst q. split; assumption.
 Qed.
